@@ -283,12 +283,34 @@ def failure_is_error(program, body, pred, terms=None, norm=None):
                     fwd += 1
                     continue
                 if isinstance(v, tuple) and v and v[0] == "gamma":
-                    sel, subj = presence_selection(v, pred)
-                    bad_side = sel.get(False)
-                    if subj is not None and isinstance(bad_side, tuple) and len(bad_side) == 4 and bad_side[0] == "agg" and bad_side[2] in ("Err", "None"):
-                        good_side = sel.get(True)
-                        if not (isinstance(good_side, tuple) and len(good_side) == 4 and good_side[0] == "agg" and good_side[2] in ("Err", "None")):
-                            fwd += 1
+                    # a (possibly nested) selection: every leaf that is not an Err/None lies on the success side of a
+                    # test of the value, and such a test exists
+                    state = {"tested": False, "ok": True, "good": 0}
+
+                    def walk(x, under, depth=0):
+                        if isinstance(x, tuple) and x and x[0] == "gamma" and depth < 12:
+                            for l_, b_ in x[2]:
+                                u2 = under
+                                if tests_presence_of(x[1], pred):
+                                    state["tested"] = True
+                                    if asserts_ok(x[1], l_, pred):
+                                        u2 = True
+                                    elif not asserts_fail(x[1], l_, pred):
+                                        u2 = under
+                                    else:
+                                        u2 = False
+                                walk(b_, u2, depth + 1)
+                            return
+                        is_err = isinstance(x, tuple) and len(x) == 4 and x[0] == "agg" and x[2] in ("Err", "None")
+                        if is_err or x == ("never",):
+                            return
+                        if under:
+                            state["good"] += 1
+                        else:
+                            state["ok"] = False
+                    walk(v, False)
+                    if state["tested"] and state["ok"] and state["good"]:
+                        fwd += 1
             if fwd:
                 return True, "forwarded to the caller: the returned value is Err/None exactly when it failed", ok, bad
         return False, "the value is never tested: its error is dropped", ok, bad
@@ -1395,6 +1417,8 @@ def simplify_term(t):
     if t[0] == "field":
         base = simplify_term(t[1])
         name = t[2]
+        if base == ("never",):
+            return base  # a projection of a value on an infeasible path
         if base[0] == "agg":
             _, adt, variant, fields = base
             if name.startswith("as "):
@@ -1407,9 +1431,9 @@ def simplify_term(t):
         if base[0] == "try" and name in ("as Break",):
             return ("field", simplify_term(base[1]), "as ErrOrNone")
         if base[0] == "field" and base[2] in ("as OkOrSome", "as Some", "as Ok") and name == "0":
-            return ("payload", base[1])
+            return simplify_term(("payload", base[1]))
         if base[0] == "field" and base[2] in ("as ErrOrNone", "as Err") and name == "0":
-            return ("errpayload", base[1])
+            return simplify_term(("errpayload", base[1]))
         if base[0] == "with" and isinstance(name, str) and not name.startswith("as "):
             # reading a member of a functionally updated record
             exact = [v for pth, v in base[2] if pth == (name,)]
@@ -1425,6 +1449,8 @@ def simplify_term(t):
         return ("field", base, name)
     if t[0] in ("payload", "errpayload") and len(t) == 2:
         x = simplify_term(t[1])
+        if x == ("never",):
+            return x
         if isinstance(x, tuple) and len(x) == 4 and x[0] == "agg" and x[1] in ("core::option::Option", "core::result::Result", "core::ops::control_flow::ControlFlow"):
             good = ("Some", "Ok", "Continue") if t[0] == "payload" else ("Err", "Break")
             return dict(x[3]).get("0", ("never",)) if x[2] in good else ("never",)
@@ -1527,6 +1553,14 @@ def _decide_label(cond, labs):
         return None
     if cond[0] == "const" and isinstance(cond[1], int):
         return lab_holds(labs, str(cond[1]))
+    if cond[0] == "discr" and isinstance(cond[1], tuple) and len(cond[1]) == 2 and cond[1][0] == "try" and isinstance(cond[1][1], tuple) and cond[1][1][:1] == ("agg",):
+        # discriminant of Try::branch(known aggregate): Continue (0) for Some/Ok/Continue, Break (1) otherwise
+        v = cond[1][1][2]
+        if v in ("Some", "Ok", "Continue"):
+            return lab_holds(labs, "0")
+        if v in ("None", "Err", "Break"):
+            return lab_holds(labs, "1")
+        return None
     if cond[0] == "discr" and isinstance(cond[1], tuple) and cond[1] and cond[1][0] == "agg":
         adt = cond[1][1].rsplit("::", 1)[-1]
         if len(cond) > 2 and cond[2] == "try":
